@@ -298,6 +298,9 @@ def r7_guards_and_list_columns(ctx):
         raise Unrecognised(f"{cf.where}: the conversion of list-valued columns is guarded by conditions the checker does not know: {unknown}")
 
 
+from ..through_time import make_rule as _mk_tt
+_through_time = _mk_tt("C19")
+
 RULES = [
     ("C19-R6", r6_retarget_guard),
     ("C19-R1", r1_constructor_exhaustive),
@@ -306,4 +309,5 @@ RULES = [
     ("C19-R4", r4_class_memo_keys),
     ("C19-R5", r5_string_array),
     ("C19-R7", r7_guards_and_list_columns),
+    ("C19-T1", _through_time),
 ]
